@@ -188,7 +188,11 @@ class Sym:
         return f
 
     def block(self, stmts):
-        for s in stmts:
+        for i, s in enumerate(stmts):
+            if isinstance(s, ast.If) and not s.orelse and s.body and isinstance(s.body[-1], ast.Return) and stmts[i + 1:]:
+                # `if c: …; return x` followed by more statements: the rest is the else arm
+                self.stmt(ast.If(test=s.test, body=s.body, orelse=stmts[i + 1:]))
+                return
             self.stmt(s)
 
     def out(self, key):
@@ -595,6 +599,181 @@ def generate_consumer(repo):
     return {'TTV/Generated/ConsumerSrc.lean': consumer_src(parse(repo))}
 
 
+# ------------------------------------------------------------------------------------------------ C11: decorators
+FIELDS = ['test_id', 'test_status', 'test_tags', 'runnable', 'file_name', 'file_bytes', 'eof', 'mime_type', 'route_code', 'timestamp']
+LEAN_FIELD = {'test_id': 'testId', 'test_status': 'status', 'test_tags': 'tags', 'runnable': 'runnable', 'file_name': 'fileName',
+              'file_bytes': 'fileBytes', 'eof': 'eof', 'mime_type': 'mime', 'route_code': 'route', 'timestamp': 'timestamp'}
+
+
+class Stamp(Sym):
+    """`TimestampingStreamResult.status(self, *args, **kwargs)`: the timestamp handed on"""
+
+    def __init__(self):
+        Sym.__init__(self, {})
+
+    def atom(self, e):
+        src = ast.unparse(e)
+        if src in ("kwargs.pop('timestamp', None)", "kwargs.get('timestamp', None)", "kwargs.get('timestamp')"):
+            if src.startswith('kwargs.pop'):
+                self.env['__popped__'] = ('none',)
+            return ('kwTimestamp',)
+        if src in ('datetime.datetime.now(utc)', 'datetime.datetime.now(datetime.timezone.utc)'):
+            return ('now',)
+        return None
+
+    def effect(self, s):
+        # super().status(*args, timestamp=<t>, **kwargs) with `timestamp` popped from kwargs before
+        if isinstance(s, ast.Expr) and isinstance(s.value, ast.Call) and ast.unparse(s.value.func) == 'super().status' and '__out__' not in self.env:
+            c = s.value
+            kws = [(k.arg, k.value) for k in c.keywords]
+            if [ast.unparse(a) for a in c.args] == ['*args'] and [k for k, _ in kws] == ['timestamp', None] and ast.unparse(kws[1][1]) == 'kwargs' \
+                    and '__popped__' in self.env:
+                self.env['__out__'] = self.expr(kws[0][1])
+                return True
+        return False
+
+
+class QueueRoute(Sym):
+    """`StreamToQueue.route_code(self, route_code)`: the route code put on the queue"""
+
+    def __init__(self):
+        Sym.__init__(self, {'route_code': ('kwRoute',)})
+
+    def atom(self, e):
+        src = ast.unparse(e)
+        if src == 'self.routing_code':
+            return ('code',)
+        if src in ("self.routing_code + '/' + route_code",) and self.env.get('route_code') == ('kwRoute',):
+            return ('join', ('code',), ('kwRoute',))
+        return None
+
+    def effect(self, s):
+        if isinstance(s, ast.Return) and s.value is not None and '__out__' not in self.env:
+            self.env['__out__'] = self.expr(s.value)
+            return True
+        return False
+
+
+def status_params(fn):
+    """parameter names of a `status` method after self, as Lean field names (`other` for anything else) -> list, or None for *args/**kwargs"""
+    if fn.args.vararg or fn.args.kwarg:
+        return None
+    return [('.' + LEAN_FIELD[a.arg]) if a.arg in LEAN_FIELD else '.other' for a in fn.args.args[1:]]
+
+
+def queue_dict(fn):
+    """the `dict(event="status", k=v, …)` put on the queue by `StreamToQueue.status` -> [(field, QArg)] in canonical field order"""
+    body = body_of(fn)
+    if len(body) != 1 or not (isinstance(body[0], ast.Expr) and isinstance(body[0].value, ast.Call) and ast.unparse(body[0].value.func) == 'self.queue.put'
+                              and len(body[0].value.args) == 1 and isinstance(body[0].value.args[0], ast.Call) and ast.unparse(body[0].value.args[0].func) == 'dict'
+                              and not body[0].value.args[0].args):
+        return None
+    kws = {k.arg: k.value for k in body[0].value.args[0].keywords}
+    if len(kws) != len(body[0].value.args[0].keywords) or ast.unparse(kws.pop('event', ast.Constant(value=None))) != "'status'":
+        return None
+    out = []
+    for f in FIELDS:                         # a dict: the order of the keywords is irrelevant
+        v = kws.pop(f, None)
+        if v is None:
+            out.append('(.%s, .missing)' % LEAN_FIELD[f])
+        elif isinstance(v, ast.Name) and v.id in LEAN_FIELD:
+            out.append('(.%s, .param .%s)' % (LEAN_FIELD[f], LEAN_FIELD[v.id]))
+        elif ast.unparse(v) == 'self.route_code(route_code)':
+            out.append('(.%s, .routed)' % LEAN_FIELD[f])
+        else:
+            out.append('(.%s, .other)' % LEAN_FIELD[f])
+    if kws:
+        out.append('(.other, .other)')
+    return out
+
+
+def copy_stmts(fn, method):
+    out = []
+    for s in body_of(fn):
+        src = ast.unparse(s)
+        if src in ('super().%s()' % method, 'super().%s(*args, **kwargs)' % method):
+            out.append(('superCall',))
+        elif src in ("_strict_map(methodcaller('%s'), self.targets)" % method, "_strict_map(methodcaller('%s', *args, **kwargs), self.targets)" % method):
+            out.append(('mapTargets',))
+        else:
+            out.append(OTHER)
+    if method == 'status' and not (fn.args.vararg and fn.args.kwarg and [a.arg for a in fn.args.args] == ['self']):
+        out.append(OTHER)
+    return out
+
+
+def failfast_stmts(fn):
+    out = []
+    for s in body_of(fn):
+        if isinstance(s, ast.If) and not s.orelse and isinstance(s.test, ast.Compare) and len(s.test.ops) == 1 and isinstance(s.test.ops[0], ast.In) \
+                and ast.unparse(s.test.left) == 'test_status' and isinstance(s.test.comparators[0], (ast.Tuple, ast.List, ast.Set)) \
+                and all(isinstance(x, ast.Constant) and x.value in STATUS_LEAN for x in s.test.comparators[0].elts) \
+                and [ast.unparse(b) for b in s.body] == ['self.on_error()']:
+            sts = sorted({x.value for x in s.test.comparators[0].elts}, key=list(STATUS_LEAN).index)
+            out.append('(.ifStatusInThenOnError [%s])' % ', '.join('.' + STATUS_LEAN[x] for x in sts))
+        else:
+            out.append('.other')
+    return '[' + ', '.join(out) + ']'
+
+
+STATUS_LEAN = {'inprogress': 'inprogress', 'exists': 'exist', 'xfail': 'xfail', 'uxsuccess': 'uxsuccess', 'success': 'success',
+               'fail': 'fail', 'skip': 'skip', 'unknown': 'unknown'}
+
+
+def deco_src(tree):
+    st = Stamp()
+    fn = find(tree, 'TimestampingStreamResult', 'status')
+    if not (fn.args.vararg and fn.args.kwarg and [a.arg for a in fn.args.args] == ['self']):
+        st.bad = True
+    st.block(body_of(fn))
+    qr = QueueRoute()
+    fn = find(tree, 'StreamToQueue', 'route_code')
+    if [a.arg for a in fn.args.args] != ['self', 'route_code']:
+        qr.bad = True
+    qr.block(body_of(fn))
+    orders = []
+    for cls in ('StreamResult', 'StreamFailFast', '_StreamToTestRecord', 'StreamToQueue'):
+        p = status_params(find(tree, cls, 'status'))
+        orders.append('("%s", %s)' % (cls, '[.other]' if p is None else '[' + ', '.join(p) + ']'))
+    qd = queue_dict(find(tree, 'StreamToQueue', 'status'))
+    return '''import TTV.Model.DecoSrc
+/-! GENERATED by harness/pystream.py from testtools/testresult/real.py on every run - do not edit.
+The field-owning decorators: the timestamp `TimestampingStreamResult.status` hands on and the route code
+`StreamToQueue.route_code` computes (symbolically executed to terms); the parameter order of the explicit `status`
+signatures; which parameter feeds which key of the dict `StreamToQueue.status` enqueues; the statement lists of
+`CopyStreamResult` and `StreamFailFast.status`. -/
+namespace TTV.Generated.DecoSrc
+open TTV.DecoSrc TTV.Stream
+
+def stampTimestamp : DExpr :=
+  %s
+
+def queueRoute : DExpr :=
+  %s
+
+def statusParams : List (String × List Field) := [%s]
+
+def queueDict : List (Field × QArg) := [%s]
+
+def copyStart : List CStmt := %s
+def copyStop : List CStmt := %s
+def copyStatus : List CStmt := %s
+
+def failFastStatus : List FFStmt := %s
+
+end TTV.Generated.DecoSrc
+''' % (lean(st.out('__out__')), lean(qr.out('__out__')), ', '.join(orders),
+       '(.other, .other)' if qd is None else ', '.join(qd),
+       lean(copy_stmts(find(tree, 'CopyStreamResult', 'startTestRun'), 'startTestRun')),
+       lean(copy_stmts(find(tree, 'CopyStreamResult', 'stopTestRun'), 'stopTestRun')),
+       lean(copy_stmts(find(tree, 'CopyStreamResult', 'status'), 'status')),
+       failfast_stmts(find(tree, 'StreamFailFast', 'status')))
+
+
+def generate_deco(repo):
+    return {'TTV/Generated/DecoSrc.lean': deco_src(parse(repo))}
+
+
 def parse(repo):
     return ast.parse(open(os.path.join(repo, 'testtools', 'testresult', 'real.py')).read())
 
@@ -606,6 +785,6 @@ def generate_router(repo):
 if __name__ == '__main__':
     import sys
     repo = sys.argv[1] if len(sys.argv) > 1 else '/repo'
-    for g in (generate_router, generate_consumer):
+    for g in (generate_router, generate_consumer, generate_deco):
         for k, v in g(repo).items():
             print(v)
